@@ -62,6 +62,14 @@ let suite_hops (line : string) : string =
         if i = b then M.set_hb_b (M.set_b_flags fl hb.M.hb_b) hb else hb) !w.M.hw_banks in
       w := { !w with M.hw_banks = banks' };
       out := ("OK # " ^ dump_hworld !w) :: !out
+    end else if op = 34 then begin
+      let a = nn t in let b = nn t in let n = nz t in
+      let res = match M.h_borrow_norem !w a b n with M.Ok w' -> w := w'; "OK" | M.Err e -> err_s e in
+      out := (res ^ " # " ^ dump_hworld !w) :: !out
+    end else if op = 35 then begin
+      let a = nn t in let b = nn t in let n = nz t in let f = nb_ t in
+      let res = match M.h_withdraw_norem !w a b n f with M.Ok w' -> w := w'; "OK" | M.Err e -> err_s e in
+      out := (res ^ " # " ^ dump_hworld !w) :: !out
     end else if op = 32 then begin
       let b = nn t in let _a = ni t in
       let res = match M.h_collect_fees_foreign_ata !w b with M.Ok w' -> w := w'; "OK" | M.Err e -> err_s e in
